@@ -217,7 +217,7 @@ Proof.
   destruct (c_parse_fail c) eqn:Ep.
   { injection H as <- <- <-.
     refine (mkShape _ _ _ _ _ _ _ _ [] [] [] [] [] _ _ _ _ _ _ _ _ _ _ _); simpl; auto; try discriminate; try congruence. }
-  destruct (c_setup_fail c) eqn:Es.
+  destruct (setup_breaks c) eqn:Es.
   { injection H as <- <- <-.
     refine (mkShape _ _ _ _ _ _ _ _ [ENew i] [] [] [] [] _ _ _ _ _ _ _ _ _ _ _); simpl; eauto; try discriminate; try congruence. }
   destruct (c_make_fail c) eqn:Em.
@@ -673,7 +673,7 @@ Proof.
     + split; [|split].
       * destruct PF as [PF|[_ PF]]; auto.
       * exact PS.
-      * intros n Hn. discriminate.
+      * intros n Hn. destruct (start_panics c); discriminate.
   - simpl in H. unfold do_restart in H. destruct (find_inst h (known s)) as [o|] eqn:F.
     2:{ injection H as <- <- <-. simpl. split; [reflexivity|]. split; [auto|]. intros n D. discriminate. }
     destruct (restart_body o c (set_wg s (wg_add (i_root o) 1 (wg s)))) as [[s1 e1] r1] eqn:E.
@@ -912,9 +912,9 @@ Qed.
 
 Definition quirk_old : config :=
   mkCfg false false false [] [mkCb 0 false] [mkCb 0 false] [mkCb 0 false]
-        [mkCb 0 true; mkCb 1 false] [mkCb 0 false] [mkSrv 0 true 1 false].
+        [mkCb 0 true; mkCb 1 false] [mkCb 0 false] [mkSrv 0 true 1 false false] false.
 Definition quirk_new : config :=
-  mkCfg false false false [] [mkCb 0 false] [] [] [mkCb 0 false] [] [mkSrv 0 true 1 false].
+  mkCfg false false false [] [mkCb 0 false] [] [] [mkCb 0 false] [] [mkSrv 0 true 1 false false] false.
 
 (* an OnShutdown callback of the old instance that returns an error does not make the reload fail
    (F-C16-1, repaired): all the old shutdown callbacks run, no restart-failed callback does, the
@@ -1219,7 +1219,7 @@ Lemma start_ok_shape s c s' ev n :
          ++ li ++ serve_events n saved ++ after_events n saved ++ [EHook HInstanceStartup n].
 Proof.
   simpl. unfold do_start. destruct (start_plan c (next s) false [] 0) as [[e ok] saved] eqn:E.
-  destruct ok; intro H; [|discriminate]. injection H as <- <- <-.
+  destruct ok; intro H; [|destruct (start_panics c); discriminate]. injection H as <- <- <-.
   pose proof (start_plan_shape _ _ _ _ _ _ _ _ E) as [hd f su li tl Heq _ _ _ _ _ _ Hli _ _ Hok].
   destruct (Hok eq_refl) as [_ [-> [-> [-> [LL ->]]]]].
   exists li, saved. split; [reflexivity|]. split; [exact LL|]. split; [exact Hli|].
@@ -1233,7 +1233,7 @@ Lemma start_fail_events s c s' ev n e :
   (exists l, e = ECb KStartup (next s) l) \/ is_listen_ev (next s) 0 e = true.
 Proof.
   simpl. unfold do_start. destruct (start_plan c (next s) false [] 0) as [[e0 ok] saved] eqn:E.
-  destruct ok; intro H; [discriminate|]. injection H as <- <- <-. intro Hin.
+  destruct ok; intro H; [discriminate|]. destruct (start_panics c); [discriminate|]. injection H as <- <- <-. intro Hin.
   pose proof (start_plan_shape _ _ _ _ _ _ _ _ E) as [hd f su li tl Heq Hhd _ _ _ _ _ Hli _ Hft _].
   subst e0. rewrite (Hft eq_refl), app_nil_r in Hin.
   repeat (apply in_app_or in Hin as [Hin|Hin]).
@@ -2001,3 +2001,511 @@ Proof.
   apply in_map_iff in Hin as [[[a b] r0] [E Hin]]. simpl in E. injection E as -> ->.
   eapply wait_means_lineage_stopped; eauto.
 Qed.
+
+
+(* ================================================================== deepening: stop errors *)
+(* the servers whose Stop returns an error (logged by Instance.Stop) *)
+Fixpoint stop_err_ids (srv : list (nat * srvspec)) : list nat :=
+  match srv with
+  | [] => []
+  | (j, sp) :: r => if sv_graceful sp && sv_stop_err sp then j :: stop_err_ids r else stop_err_ids r
+  end.
+
+Lemma stop_servers_e_refines i srv : forall w sv,
+  stop_servers_e i srv w sv =
+  (let '(w', sv', ev) := stop_servers i srv w sv in (w', sv', ev, stop_err_ids srv)).
+Proof.
+  induction srv as [|[j sp] srv IH]; intros w sv; simpl; [reflexivity|].
+  destruct (sv_graceful sp); simpl; [|apply IH].
+  destruct (take_serving i j sv) as [[root sv1]|].
+  - rewrite IH. destruct (stop_servers i srv (wg_done root w) sv1) as [[w2 sv2] ev2].
+    destruct (sv_stop_err sp); reflexivity.
+  - rewrite IH. destruct (stop_servers i srv w sv) as [[w2 sv2] ev2].
+    destruct (sv_stop_err sp); reflexivity.
+Qed.
+
+(* Instance.Stop returns nil whatever its servers' Stop calls return, and does the same as the
+   model without errors *)
+Lemma stop_inst_e_refines o s :
+  stop_inst_e o s = (let '(s', ev) := stop_inst o s in (s', ev, stop_err_ids (i_srv o), false)).
+Proof.
+  unfold stop_inst_e, stop_inst. rewrite stop_servers_e_refines.
+  destruct (stop_servers (i_id o) (i_srv o) (wg s) (serving s)) as [[w sv] ev]. reflexivity.
+Qed.
+
+Lemma restart_body_e_eq o c s : restart_body_e o c s = restart_body o c s.
+Proof.
+  unfold restart_body_e, restart_body.
+  destruct (run_stop KRestart (i_id o) (c_restart (i_cfg o))) as [e1 ok1].
+  destruct (negb ok1); [reflexivity|].
+  destruct (start_plan c (next s) true (i_srv o) (i_id o)) as [[e2 ok2] saved].
+  destruct (negb ok2); [reflexivity|].
+  rewrite stop_inst_e_refines.
+  destruct (stop_inst o (commit (mkInst (next s) (i_root o) c saved) (next_after c (next s)) s)) as [s2 e3].
+  reflexivity.
+Qed.
+
+(* every graceful server is stopped, also those that come after one whose Stop failed *)
+Lemma stop_servers_all i srv : forall w sv w' sv' ev j sp,
+  stop_servers i srv w sv = (w', sv', ev) -> In (j, sp) srv -> sv_graceful sp = true -> In (EStop i j) ev.
+Proof.
+  induction srv as [|[j0 sp0] srv IH]; intros w sv w' sv' ev j sp H Hin G; simpl in *; [contradiction|].
+  destruct Hin as [E|Hin].
+  - injection E as -> ->. rewrite G in H.
+    destruct (take_serving i j sv) as [[root sv1]|].
+    + destruct (stop_servers i srv (wg_done root w) sv1) as [[w2 sv2] ev2]. injection H as <- <- <-. left. reflexivity.
+    + destruct (stop_servers i srv w sv) as [[w2 sv2] ev2]. injection H as <- <- <-. left. reflexivity.
+  - destruct (sv_graceful sp0).
+    + destruct (take_serving i j0 sv) as [[root sv1]|].
+      * destruct (stop_servers i srv (wg_done root w) sv1) as [[w2 sv2] ev2] eqn:E. injection H as <- <- <-.
+        right. right. eapply IH; eauto.
+      * destruct (stop_servers i srv w sv) as [[w2 sv2] ev2] eqn:E. injection H as <- <- <-.
+        right. eapply IH; eauto.
+    + eapply IH; eauto.
+Qed.
+
+(* a reload whose new instance has started succeeds whatever the Stop calls of the old
+   instance's servers return: all of them are stopped, all the old OnShutdown callbacks run, no
+   restart-failed callback does, the result is the new instance *)
+Lemma stop_error_does_not_fail_reload o c s e2 saved :
+  existsb cb_fail (c_restart (i_cfg o)) = false ->
+  start_plan c (next s) true (i_srv o) (i_id o) = (e2, true, saved) ->
+  exists s' e3,
+    restart_body_e o c s =
+      (s', cb_events KRestart (i_id o) (labels (c_restart (i_cfg o))) ++ e2 ++ e3
+           ++ cb_events KShutdown (i_id o) (labels (c_shutdown (i_cfg o))) ++ [EHook HInstanceStartup (next s)],
+       RInst true (next s)) /\
+    forallb (is_stop_ev (i_id o)) e3 = true /\
+    (forall j sp, In (j, sp) (i_srv o) -> sv_graceful sp = true -> In (EStop (i_id o) j) e3) /\
+    insts s' = remove_id (i_id o) (insts s ++ [mkInst (next s) (i_root o) c saved]).
+Proof.
+  intros Hr Hp. rewrite restart_body_e_eq.
+  destruct (restart_body o c s) as [[s' ev] r] eqn:E.
+  pose proof (restart_body_cases _ _ _ _ _ _ E) as C. cbv zeta in C.
+  destruct C as [[D _]|[_ [e2' [ok2 [saved' [P C]]]]]]; [congruence|].
+  rewrite Hp in P. injection P as <- <- <-.
+  destruct C as [[D _]|[_ [e3 [S3 [-> ->]]]]]; [discriminate|].
+  exists s', e3. split; [reflexivity|]. split; [eapply stop_inst_events; eauto|].
+  unfold stop_inst in S3.
+  destruct (stop_servers (i_id o) (i_srv o) (wg (commit (mkInst (next s) (i_root o) c saved) (next_after c (next s)) s))
+              (serving (commit (mkInst (next s) (i_root o) c saved) (next_after c (next s)) s))) as [[w sv] ev3] eqn:E3.
+  injection S3 as <- <-. split.
+  - intros j sp Hin G. eapply stop_servers_all; eauto.
+  - simpl. destruct (commit_fields (mkInst (next s) (i_root o) c saved) (next_after c (next s)) s) as [A _].
+    rewrite A. reflexivity.
+Qed.
+
+Definition stop_err_old : config :=
+  mkCfg false false false [] [mkCb 0 false] [] [mkCb 0 false] [mkCb 0 false] []
+        [mkSrv 0 true 1 false true; mkSrv 1 true 1 false false] false.
+
+(* ================================================================== deepening: panicking setup *)
+Lemma start_plan_setup_breaks c i restart old oi :
+  c_parse_fail c = false -> setup_breaks c = true -> start_plan c i restart old oi = ([ENew i], false, []).
+Proof. intros P B. unfold start_plan. rewrite P, B. reflexivity. Qed.
+
+(* casket.Start: the panic reaches the caller; only NewContext has happened and nothing of the
+   instance is left (the deferred clean-up keyed on [succeeded] took it out of the list) *)
+Lemma start_panic_leaves_nothing s c s' ev :
+  step s (OStart c) = (s', ev, RPanic) ->
+  c_setup_panic c = true /\ ev = [ENew (next s)] /\
+  insts s' = insts s /\ known s' = known s /\ serving s' = serving s /\ once s' = once s /\
+  (forall x, wg s' x = wg s x).
+Proof.
+  simpl. unfold do_start.
+  destruct (start_plan c (next s) false [] 0) as [[e ok] saved] eqn:E.
+  destruct ok; [discriminate|].
+  destruct (start_panics c) eqn:P; [|discriminate].
+  unfold start_panics in P. apply andb_true_iff in P as [P P3]. apply andb_true_iff in P as [P1 P2].
+  apply negb_true_iff in P1.
+  rewrite start_plan_setup_breaks in E; [|exact P1|unfold setup_breaks; rewrite P3; apply orb_true_r].
+  injection E as <- <-. intro H. injection H as <- <-. simpl. auto 10.
+Qed.
+
+Lemma restart_never_panics s h c s' ev r : step s (ORestart h c) = (s', ev, r) -> r <> RPanic.
+Proof.
+  simpl. unfold do_restart. destruct (find_inst h (known s)) as [o|]; [|intro H; injection H as <- <- <-; discriminate].
+  destruct (restart_body o c (set_wg s (wg_add (i_root o) 1 (wg s)))) as [[s1 e1] r1] eqn:E.
+  intro H. injection H as <- <- <-.
+  apply restart_body_cases in E. cbv zeta in E.
+  destruct E as [[_ [_ [-> _]]]|[_ [e2 [ok2 [saved [_ [[_ [_ [-> _]]]|[_ [e3 [_ [-> _]]]]]]]]]]]; discriminate.
+Qed.
+
+(* Instance.Restart: a plugin that panics while the new configuration is set up fails the
+   restart like an error does: the old instance's restart callbacks, NewContext of the new
+   instance, ALL restart-failed callbacks; the old instance is returned and everything stays
+   as it was *)
+Lemma reload_panicking_setup_fails s h c o :
+  find_inst h (known s) = Some o ->
+  c_parse_fail c = false -> c_setup_panic c = true ->
+  existsb cb_fail (c_restart (i_cfg o)) = false ->
+  exists s',
+    step s (ORestart h c) =
+      (s', cb_events KRestart h (labels (c_restart (i_cfg o))) ++ [ENew (next s)]
+           ++ cb_events KRestartFailed h (labels (c_rfailed (i_cfg o))), RInst false h) /\
+    insts s' = insts s /\ known s' = known s /\ serving s' = serving s /\ once s' = once s /\
+    (forall x, wg s' x = wg s x).
+Proof.
+  intros F P B R.
+  simpl. unfold do_restart. rewrite F.
+  destruct (restart_body o c (set_wg s (wg_add (i_root o) 1 (wg s)))) as [[s1 e1] r1] eqn:E1.
+  apply restart_body_cases in E1. cbv zeta in E1. rewrite (find_inst_id _ _ _ F) in E1.
+  destruct E1 as [[D _]|[_ [e2 [ok2 [saved [Pl C]]]]]]; [congruence|].
+  rewrite start_plan_setup_breaks in Pl; [|exact P|unfold setup_breaks; rewrite B; apply orb_true_r].
+  injection Pl as <- <- <-.
+  destruct C as [[_ [-> [-> ->]]]|[D _]]; [|discriminate].
+  eexists. split; [reflexivity|]. simpl. repeat split; auto.
+  intro x. apply wg_done_add.
+Qed.
+
+Definition panic_cfg : config :=
+  mkCfg false false false [mkCb 0 false] [mkCb 0 false] [] [] [mkCb 0 false] [mkCb 0 false] [mkSrv 0 true 1 false false] true.
+
+(* ================================================================== deepening: reload is never a first start *)
+Lemma listen_loop_no_fds old oi i : (forall a, fds_lookup a old = None) ->
+  forall l j, listen_loop true old oi i j l = listen_loop false [] 0 i j l.
+Proof.
+  intros Hn. induction l as [|sp l IH]; intros j; simpl; [reflexivity|].
+  rewrite Hn. destruct (sv_graceful sp); simpl; rewrite IH; reflexivity.
+Qed.
+
+Lemma in_after_false i oi e j k : is_listen_ev i oi e = true -> e <> EAfter j k.
+Proof. intros H ->. discriminate. Qed.
+
+(* whatever the old instance looks like — no server at all, only non-graceful servers, listeners
+   without a file descriptor — a reload runs no first-startup callback of anyone and no
+   OnStartupComplete (restartFds is an empty map, not nil) *)
+Lemma reload_never_first_start s h c s' ev r :
+  step s (ORestart h c) = (s', ev, r) ->
+  (forall i l, ~ In (ECb KFirst i l) ev) /\ (forall i j, ~ In (EAfter i j) ev).
+Proof.
+  intro H. split.
+  - intros i l Hin. destruct (first_startup_only_in_start _ _ _ _ _ _ _ H Hin) as [c' [D _]]. discriminate.
+  - intros i j Hin. simpl in H. unfold do_restart in H.
+    destruct (find_inst h (known s)) as [o|] eqn:F; [|injection H as _ <- _; contradiction].
+    destruct (restart_body o c (set_wg s (wg_add (i_root o) 1 (wg s)))) as [[s1 e1] r1] eqn:E.
+    injection H as _ <- _.
+    apply restart_body_cases in E. cbv zeta in E.
+    assert (Hcb : forall k i' ns, ~ In (EAfter i j) (cb_events k i' ns)).
+    { intros k i' ns C0. apply in_cb_events in C0 as [n [D _]]. discriminate. }
+    destruct E as [[_ [_ [_ ->]]]|[_ [e2 [ok2 [saved [P C]]]]]].
+    + apply in_app_or in Hin as [C0|C0]; eapply Hcb; eauto.
+    + pose proof (start_plan_shape _ _ _ _ _ _ _ _ P) as [hd f su li tl Heq Hhd _ _ Hf _ _ Hli Htl Hft Hok].
+      assert (He2 : ~ In (EAfter i j) e2).
+      { rewrite Heq. intro C0. repeat (apply in_app_or in C0 as [C0|C0]).
+        - destruct Hhd as [->|[->| ->]]; simpl in C0; intuition discriminate.
+        - rewrite (Hf eq_refl) in C0. contradiction.
+        - eapply Hcb; eauto.
+        - eapply forallb_In in Hli; eauto. discriminate.
+        - destruct ok2.
+          + destruct (Hok eq_refl) as [_ [_ [_ [_ [_ ->]]]]]. simpl in C0. rewrite app_nil_r in C0.
+            unfold serve_events in C0. apply in_map_iff in C0 as [x [D _]]. discriminate.
+          + rewrite (Hft eq_refl) in C0. contradiction. }
+      destruct C as [[_ [_ [_ ->]]]|[_ [e3 [S3 [_ ->]]]]].
+      * repeat (apply in_app_or in Hin as [Hin|Hin]); try (eapply Hcb; eauto; fail). contradiction.
+      * pose proof (stop_inst_events _ _ _ _ S3) as Hst.
+        repeat (apply in_app_or in Hin as [Hin|Hin]); try (eapply Hcb; eauto; fail); try contradiction.
+        -- eapply forallb_In in Hst; eauto. discriminate.
+        -- simpl in Hin. destruct Hin as [D|[]]. discriminate.
+Qed.
+
+(* ... and when nothing can be handed over every listener is obtained as in a first start: the
+   complete event list of such a reload *)
+Lemma reload_without_inheritable_listener s h c s' ev n o :
+  step s (ORestart h c) = (s', ev, RInst true n) ->
+  find_inst h (known s) = Some o ->
+  (forall a, fds_lookup a (i_srv o) = None) ->
+  exists li saved e3,
+    n = next s /\ listen_loop false [] 0 n 0 (c_servers c) = (li, true, saved) /\
+    forallb (is_listen_ev n 0) li = true /\ forallb (is_stop_ev h) e3 = true /\
+    ev = cb_events KRestart h (labels (c_restart (i_cfg o)))
+         ++ (ENew n :: EMake n :: cb_events KStartup n (labels (c_startup c)) ++ li ++ serve_events n saved)
+         ++ e3 ++ cb_events KShutdown h (labels (c_shutdown (i_cfg o))) ++ [EHook HInstanceStartup n].
+Proof.
+  intros H F Hn.
+  destruct (reload_ok_shape _ _ _ _ _ _ H) as (o' & li & saved & e3 & F' & -> & LL & Hli & Hst & ->).
+  rewrite F in F'. injection F' as <-.
+  rewrite (listen_loop_no_fds _ _ _ Hn) in LL.
+  exists li, saved, e3. repeat split; auto.
+  pose proof (listen_loop_events _ _ _ _ _ _ _ _ _ LL) as Hl0. exact Hl0.
+Qed.
+
+Definition nofd_old : config :=
+  mkCfg false false false [mkCb 0 false] [mkCb 0 false] [] [] [mkCb 0 false] []
+        [mkSrv 0 true 0 false false; mkSrv 1 false 1 false false] false.
+
+(* ================================================================== deepening: shutdown against concurrent Stop *)
+
+Lemma conc_run_app w a : forall m b,
+  conc_run w m (a ++ b) = match conc_run w m a with Some m' => conc_run w m' b | None => None end.
+Proof.
+  induction a as [|c a IH]; intros m b; simpl; [reflexivity|].
+  destruct (conc_step w m c); [apply IH | reflexivity].
+Qed.
+
+(* while the handler holds the lock (wide), after CAcquire: array and length never change *)
+Record held (m0 m : shm) : Prop := mkHeld {
+  h_arr : sh_arr m = sh_arr m0;
+  h_len : sh_len m = sh_len m0;
+  h_n : sh_n m = Some (sh_len m0);
+  h_idx : sh_idx m <= sh_len m0;
+  h_lock : sh_done m = false -> sh_lock m = true;
+  h_done : sh_done m = true -> sh_idx m = sh_len m0;
+  h_out : sh_out m = sh_out m0 ++ all_shutdown (firstn (sh_idx m) (live_of m0)) }.
+
+Lemma firstn_S_nth {A} (l : list A) i x : nth_error l i = Some x -> firstn (S i) l = firstn i l ++ [x].
+Proof.
+  revert i; induction l as [|y l IH]; intros [|i] H; simpl in *; try discriminate.
+  - injection H as ->. reflexivity.
+  - rewrite (IH i H). reflexivity.
+Qed.
+
+Lemma nth_error_firstn {A} (l : list A) n i : i < n -> nth_error (firstn n l) i = nth_error l i.
+Proof.
+  revert n i; induction l as [|y l IH]; intros [|n] [|i] H; simpl; try reflexivity; try lia.
+  apply IH. lia.
+Qed.
+
+Lemma all_shutdown_app a b : all_shutdown (a ++ b) = all_shutdown a ++ all_shutdown b.
+Proof. unfold all_shutdown. apply flat_map_app. Qed.
+
+(* what happens after the handler has finished cannot be said in terms of m0's array any more
+   (Stops proceed), but the output is final *)
+Record after (m0 m : shm) : Prop := mkAfter {
+  a_n : sh_n m = Some (sh_len m0);
+  a_idx : sh_idx m = sh_len m0;
+  a_done : sh_done m = true;
+  a_out : sh_out m = sh_out m0 ++ all_shutdown (live_of m0) }.
+
+Lemma held_step m0 m c m' :
+  sh_len m0 <= length (sh_arr m0) ->
+  held m0 m -> conc_step true m c = Some m' -> held m0 m' \/ after m0 m'.
+Proof.
+  intros Hcap [Ha Hl Hn Hi Hlk Hd Ho] H. destruct c; simpl in H.
+  - rewrite Hn in H. discriminate.
+  - rewrite Hn in H. destruct (sh_idx m <? sh_len m0) eqn:E; [|discriminate].
+    apply Nat.ltb_lt in E.
+    destruct (nth_error (sh_arr m) (sh_idx m)) as [x|] eqn:Ex; [|discriminate].
+    assert (Hnd : sh_done m = false).
+    { destruct (sh_done m) eqn:Ed; [|reflexivity]. specialize (Hd eq_refl). lia. }
+    injection H as <-. left.
+    constructor; cbn [sh_arr sh_len sh_lock sh_n sh_idx sh_done sh_out]; auto; try lia; try discriminate.
+    rewrite Ho. rewrite <- app_assoc. f_equal.
+    assert (Ex' : nth_error (live_of m0) (sh_idx m) = Some x).
+    { unfold live_of. rewrite nth_error_firstn by exact E. rewrite <- Ha. exact Ex. }
+    rewrite (firstn_S_nth _ _ _ Ex'), all_shutdown_app. unfold all_shutdown at 3. simpl. rewrite app_nil_r. reflexivity.
+  - rewrite Hn in H. destruct ((sh_idx m =? sh_len m0) && negb (sh_done m)) eqn:E; [|discriminate].
+    apply andb_true_iff in E as [E1 E2]. apply Nat.eqb_eq in E1.
+    injection H as <-. right. constructor; cbn [sh_arr sh_len sh_lock sh_n sh_idx sh_done sh_out]; auto.
+    rewrite Ho, E1. f_equal. f_equal. unfold live_of. apply firstn_all2.
+    rewrite firstn_length. lia.
+  - destruct (sh_done m) eqn:Ed.
+    + (* the loop is over: the state is described by [after] *)
+      right.
+      assert (Hidx := Hd eq_refl).
+      assert (Hout : sh_out m = sh_out m0 ++ all_shutdown (live_of m0)).
+      { rewrite Ho, Hidx. f_equal. f_equal. apply firstn_all2. unfold live_of. rewrite firstn_length. lia. }
+      destruct (sh_lock m); [discriminate|].
+      destruct (index_of h (live_of m)); injection H as <-; constructor; simpl; auto.
+    + rewrite (Hlk eq_refl) in H. discriminate.
+Qed.
+
+Lemma after_step w m0 m c m' : after m0 m -> conc_step w m c = Some m' -> after m0 m'.
+Proof.
+  intros [An Ai Ad Ao] H. destruct c; simpl in H.
+  - rewrite An in H. discriminate.
+  - rewrite An, Ai, Nat.ltb_irrefl in H. discriminate.
+  - rewrite An, Ad in H. rewrite andb_false_r in H. discriminate.
+  - destruct (sh_lock m); [discriminate|].
+    destruct (index_of h (live_of m)); injection H as <-; constructor; simpl; auto.
+Qed.
+
+Lemma after_run w m0 cs : forall m m', after m0 m -> conc_run w m cs = Some m' -> after m0 m'.
+Proof.
+  induction cs as [|c cs IH]; intros m m' A H; simpl in H.
+  - injection H as <-. exact A.
+  - destruct (conc_step w m c) as [m1|] eqn:E; [|discriminate]. eapply IH; [eapply after_step; eauto | exact H].
+Qed.
+
+Lemma held_run m0 cs : sh_len m0 <= length (sh_arr m0) -> forall m m',
+  held m0 m -> conc_run true m cs = Some m' -> held m0 m' \/ after m0 m'.
+Proof.
+  intros Hcap. induction cs as [|c cs IH]; intros m m' A H; simpl in H.
+  - injection H as <-. left. exact A.
+  - destruct (conc_step true m c) as [m1|] eqn:E; [|discriminate].
+    destruct (held_step _ _ _ _ Hcap A E) as [A1|A1]; [eapply IH; eauto|].
+    right. eapply after_run; eauto.
+Qed.
+
+Lemma acquire_held m0 m1 :
+  conc_step true m0 CAcquire = Some m1 ->
+  held (mkShm (sh_arr m0) (sh_len m0) false None 0 false (sh_out m0)) m1 /\ sh_n m0 = None.
+Proof.
+  simpl. destruct (sh_n m0); [discriminate|]. destruct (sh_lock m0); [discriminate|].
+  intros H. injection H as <-. split; [|reflexivity]. constructor; simpl; auto; try lia.
+  rewrite app_nil_r. reflexivity.
+Qed.
+
+
+(* ---- Stops before the handler takes the lock: the slice stays a duplicate-free sub-list ---- *)
+Lemma index_of_remove h l : forall j, index_of h l = Some j ->
+  j < length l /\ remove_id h l = firstn j l ++ skipn (S j) l.
+Proof.
+  induction l as [|o r IH]; intros j H; simpl in H; [discriminate|].
+  simpl remove_id. destruct (i_id o =? h).
+  - injection H as <-. simpl. split; [lia | reflexivity].
+  - destruct (index_of h r) as [j'|]; [|discriminate]. injection H as <-.
+    destruct (IH j' eq_refl) as [L E]. simpl. split; [lia|]. rewrite E. reflexivity.
+Qed.
+
+Lemma index_of_none h l : index_of h l = None -> remove_id h l = l.
+Proof.
+  induction l as [|o r IH]; intros H; simpl in *; [reflexivity|].
+  destruct (i_id o =? h); [discriminate|]. destruct (index_of h r); [discriminate|]. rewrite IH; reflexivity.
+Qed.
+
+Lemma firstn_firstn_le {A} (l : list A) j n : j <= n -> firstn j (firstn n l) = firstn j l.
+Proof. intros H. rewrite firstn_firstn. f_equal. lia. Qed.
+
+Lemma splice_live j len arr :
+  j < len -> len <= length arr ->
+  length (splice_at j len arr) = length arr /\
+  firstn (len - 1) (splice_at j len arr) = firstn j (firstn len arr) ++ skipn (S j) (firstn len arr).
+Proof.
+  intros Hj Hl. unfold splice_at.
+  assert (L1 : length (firstn j arr) = j) by (rewrite firstn_length; lia).
+  assert (L2 : length (skipn (S j) (firstn len arr)) = len - S j) by (rewrite skipn_length, firstn_length; lia).
+  split.
+  - rewrite app_length, app_length, L1, L2, skipn_length. lia.
+  - rewrite app_assoc. rewrite firstn_app.
+    replace (len - 1 - length (firstn j arr ++ skipn (S j) (firstn len arr))) with 0
+      by (rewrite app_length, L1, L2; lia).
+    rewrite firstn_O, app_nil_r. rewrite firstn_all2 by (rewrite app_length, L1, L2; lia).
+    rewrite firstn_firstn_le by lia. reflexivity.
+Qed.
+
+(* the concurrent Stop's splice is the sequential model's [remove_id] on the live list *)
+Lemma splice_step w m h m' :
+  sh_len m <= length (sh_arr m) ->
+  conc_step w m (CSplice h) = Some m' ->
+  live_of m' = remove_id h (live_of m) /\ sh_len m' <= length (sh_arr m') /\
+  sh_n m' = sh_n m /\ sh_out m' = sh_out m /\ sh_idx m' = sh_idx m /\ sh_done m' = sh_done m /\ sh_lock m' = false.
+Proof.
+  intros Hcap H. simpl in H. destruct (sh_lock m) eqn:El; [discriminate|].
+  destruct (index_of h (live_of m)) as [j|] eqn:E; injection H as <-.
+  - destruct (index_of_remove _ _ _ E) as [Hj Hr]. unfold live_of in Hj. rewrite firstn_length in Hj.
+    destruct (splice_live j (sh_len m) (sh_arr m)) as [L F]; [lia | exact Hcap |].
+    unfold live_of at 1. simpl. rewrite F, Hr. unfold live_of. repeat split; auto. rewrite L. lia.
+  - rewrite (index_of_none _ _ E). repeat split; auto.
+Qed.
+
+Lemma remove_id_ids_nodup h l : NoDup (ids l) -> NoDup (ids (remove_id h l)).
+Proof. apply remove_id_nodup. Qed.
+
+Record pre_ok (m : shm) : Prop := mkPre {
+  p_cap : sh_len m <= length (sh_arr m);
+  p_nd : NoDup (ids (live_of m));
+  p_n : sh_n m = None;
+  p_lock : sh_lock m = false;
+  p_out : sh_out m = [] }.
+
+Lemma pre_init l : NoDup (ids l) -> pre_ok (conc_init l).
+Proof.
+  intros H. constructor; simpl; auto. unfold live_of. simpl. rewrite firstn_all. exact H.
+Qed.
+
+Lemma pre_run w pre : forall m m1, pre_ok m -> forallb is_splice pre = true ->
+  conc_run w m pre = Some m1 -> pre_ok m1 /\ incl (live_of m1) (live_of m).
+Proof.
+  induction pre as [|c pre IH]; intros m m1 P F H; simpl in *.
+  - injection H as <-. split; [exact P | apply incl_refl].
+  - apply andb_true_iff in F as [F1 F2]. destruct c; try discriminate.
+    destruct (conc_step w m (CSplice h)) as [m2|] eqn:E; [|discriminate].
+    destruct P as [Pc Pn Pnn Pl Po].
+    destruct (splice_step _ _ _ _ Pc E) as (A & B & C & D & _ & _ & L).
+    assert (P2 : pre_ok m2).
+    { constructor; auto; try congruence. rewrite A. apply remove_id_nodup. exact Pn. }
+    destruct (IH m2 m1 P2 F2 H) as [Q I]. split; [exact Q|].
+    intros x Hx. apply I in Hx. rewrite A in Hx. eapply remove_id_incl; eauto.
+Qed.
+
+(* main: any schedule = Stops that complete before the signal handler takes the lock (pre), the
+   acquisition, anything afterwards (post: iterations, Stops trying to get in, the release,
+   Stops going on).  m1 = the state at the acquisition: its live list is "the instances live at
+   the first signal". *)
+Lemma shutdown_once_under_concurrent_stop l pre post m1 m' :
+  NoDup (ids l) ->
+  forallb is_splice pre = true ->
+  conc_run true (conc_init l) pre = Some m1 ->
+  conc_run true m1 (CAcquire :: post) = Some m' ->
+  (* at every moment: what has run is a prefix, instance by instance, of the live list *)
+  sh_out m' = all_shutdown (firstn (sh_idx m') (live_of m1)) /\
+  (* when the handler is through: every live instance's callbacks, exactly once, in order *)
+  (sh_done m' = true ->
+   sh_out m' = all_shutdown (live_of m1) /\
+   forall x, In x (live_of m1) ->
+     proj KShutdown (i_id x) (sh_out m') = labels (c_shutdown (i_cfg x)) /\
+     proj KFinal (i_id x) (sh_out m') = labels (c_final (i_cfg x))).
+Proof.
+  intros Hnd Fp Hpre H.
+  destruct (pre_run true pre _ _ (pre_init l Hnd) Fp Hpre) as [[Pc Pn Pnn Pl Po] _].
+  change (conc_run true m1 (CAcquire :: post)) with
+    (match conc_step true m1 CAcquire with Some mm => conc_run true mm post | None => None end) in H.
+  destruct (conc_step true m1 CAcquire) as [m2|] eqn:E; [|discriminate].
+  destruct (acquire_held _ _ E) as [Hh _].
+  set (m0 := mkShm (sh_arr m1) (sh_len m1) false None 0 false (sh_out m1)) in *.
+  assert (L0 : live_of m0 = live_of m1) by reflexivity.
+  assert (O0 : sh_out m0 = []) by exact Po.
+  destruct (held_run m0 post Pc _ _ Hh H) as [[_ _ _ Hi _ Hd Ho]|[_ Ai Ad Ao]].
+  - rewrite O0, L0 in Ho. simpl in Ho. split; [exact Ho|]. intros D.
+    assert (Hall : sh_out m' = all_shutdown (live_of m1)).
+    { rewrite Ho, (Hd D). f_equal. apply firstn_all2. unfold live_of. rewrite firstn_length. simpl. lia. }
+    split; [exact Hall|]. intros x Hx. rewrite Hall. split; [apply proj_all_shutdown | apply proj_final_all]; auto.
+  - rewrite O0, L0 in Ao. simpl in Ao.
+    assert (Hf : firstn (sh_idx m') (live_of m1) = live_of m1).
+    { apply firstn_all2. rewrite Ai. unfold live_of. rewrite firstn_length. simpl. lia. }
+    split; [rewrite Hf; exact Ao|]. intros _. split; [exact Ao|].
+    intros x Hx. rewrite Ao. split; [apply proj_all_shutdown | apply proj_final_all]; auto.
+Qed.
+
+(* the handler is never blocked by Stops: once it holds the lock it can run to the end *)
+Lemma handler_can_finish m0 : sh_len m0 <= length (sh_arr m0) -> forall k m,
+  held m0 m -> sh_done m = false -> k = sh_len m0 - sh_idx m ->
+  exists m', conc_run true m (repeat CIter k ++ [CRelease]) = Some m' /\ sh_done m' = true.
+Proof.
+  intros Hcap. induction k as [|k IH]; intros m Hh Hnd Hk.
+  - destruct Hh as [Ha Hl Hn Hi Hlk Hd Ho]. simpl. rewrite Hn, Hnd.
+    replace (sh_idx m =? sh_len m0) with true by (symmetry; apply Nat.eqb_eq; lia).
+    simpl. eexists. split; reflexivity.
+  - assert (Hh' := Hh). destruct Hh as [Ha Hl Hn Hi Hlk Hd Ho].
+    assert (Hlt : sh_idx m < sh_len m0) by lia.
+    destruct (nth_error (sh_arr m) (sh_idx m)) as [x|] eqn:Ex.
+    2:{ apply nth_error_None in Ex. rewrite Ha in Ex. lia. }
+    simpl. rewrite Hn. replace (sh_idx m <? sh_len m0) with true by (symmetry; apply Nat.ltb_lt; exact Hlt).
+    rewrite Ex.
+    match goal with |- context [conc_run true ?mm _] => set (m2 := mm) end.
+    assert (E : conc_step true m CIter = Some m2).
+    { simpl. rewrite Hn. replace (sh_idx m <? sh_len m0) with true by (symmetry; apply Nat.ltb_lt; exact Hlt).
+      rewrite Ex. reflexivity. }
+    destruct (held_step _ _ _ _ Hcap Hh' E) as [H2|[_ _ Ad _]]; [|discriminate Ad].
+    apply (IH m2 H2); [reflexivity | simpl; lia].
+Qed.
+
+(* the variant that iterates outside the lock over the un-copied slice (what narrowing the lock
+   to the snapshot gives): with three live instances and a Stop of the first one while its
+   callback runs, the second instance's callbacks never run and the third one's run twice *)
+Definition conc_cfg : config := mkCfg false false false [] [] [] [] [mkCb 0 false] [mkCb 0 false] [] false.
+Definition conc_three : list inst := [mkInst 0 0 conc_cfg []; mkInst 1 1 conc_cfg []; mkInst 2 2 conc_cfg []].
+
+Lemma unlocked_snapshot_refuted :
+  exists cs m', conc_run false (conc_init conc_three) cs = Some m' /\ sh_done m' = true /\
+    proj KShutdown 1 (sh_out m') = [] /\ proj KShutdown 2 (sh_out m') = [0; 0] /\
+    proj KFinal 2 (sh_out m') = [0; 0].
+Proof.
+  exists [CAcquire; CIter; CSplice 0; CIter; CIter; CRelease]. eexists. vm_compute. repeat split; reflexivity.
+Qed.
+
+(* the same schedule against the code as it is: the Stop cannot get in *)
+Lemma locked_blocks_stop :
+  conc_run true (conc_init conc_three) [CAcquire; CIter; CSplice 0] = None.
+Proof. vm_compute. reflexivity. Qed.
